@@ -442,7 +442,7 @@ impl World {
             // Then "the object is subsequently collected like any other" (C18) did not hold for
             // that object: it holds pointers and was not treated as a holder of pointers
             if self.sh.arena_alive(a) {
-                let without = self.sh.clone_arena_without_edges_of(a, |k| matches!(k, Kind::Slice { .. } | Kind::Swh { .. }));
+                let without = self.sh.clone_arena_without_edges_of(a, |k| matches!(k, Kind::Slice { .. } | Kind::Swh { .. } | Kind::CopySlice { .. } | Kind::CopySwh { .. }));
                 if !without.reach(a).contains(&oid) {
                     aliases.push("C18.completed-holder".to_string());
                 }
